@@ -50,7 +50,7 @@ func init() {
 	RegisterCheck("C09", func(c *Ctx) {
 		c.Level = "exploration"
 		c.Rule = "DFS (sleep-set reduced) over schedules of concurrent writers on one stream, every Write/Flush of the stream being a scheduling point; the recorded byte stream is split by a reference line reader / WHATWG SSE parser and must yield exactly the multiset of messages written, each parseable alone; distinct by (frame order, verdict)"
-		c.Assume = append(c.Assume, "a pipe write larger than PIPE_BUF (4096) is delivered in pieces with scheduling points in between", "memnet replaces net/http", "sleep-set partial-order reduction (DESIGN 2.8)")
+		c.Assume = append(c.Assume, "a pipe write larger than PIPE_BUF (4096) is delivered in pieces with scheduling points in between", "memnet replaces net/http; an http.ResponseWriter is modelled as not safe for concurrent use (Write and Flush are begin/commit pairs, an overlap is a violation)", "sleep-set partial-order reduction (DESIGN 2.8)")
 		for _, pl := range c09PayloadNames() {
 			big := len(c09Payloads[pl]) > 1000
 			pb := c.Pick(3, 5)
@@ -60,10 +60,13 @@ func init() {
 			b := explore.Bounds{Preempt: pb, Dev: 1, POR: true}
 			c.DFSBoth("c09/io-server/"+pl, b, 1)
 			c.DFSBoth("c09/io-client/"+pl, b, 1)
+			c.DFS("c09/post-sse/"+pl, explore.Bounds{Preempt: 1, Dev: 1, POR: true})
+			if c.Quick() && pl != "small" && pl != "65537" && pl != "lf" {
+				continue // quick tier: the HTTP stream scenarios run for three payload classes (thorough: all seven)
+			}
 			c.DFSBoth("c09/get-stream/"+pl, b, 1)
 			c.DFSBoth("c09/ls-stream/"+pl, b, 0)
 			c.DFS("c09/ls-tick/"+pl, explore.Bounds{Preempt: c.Pick(2, 3), Dev: 1, POR: true})
-			c.DFS("c09/post-sse/"+pl, explore.Bounds{Preempt: 1, Dev: 1, POR: true})
 		}
 	})
 }
@@ -199,7 +202,7 @@ func c09IOServer(prefix []int, pl string) explore.Outcome {
 		r.Start()
 		rp := NewRawPeer(r)
 		if err := rp.Handshake(); err != nil {
-			viol = append(viol, V("harness", "%v", err))
+			viol = append(viol, V("setup-handshake-fails", "setting the scenario up with well-behaved peers fails: %v", err))
 			return
 		}
 		vsched.Quiesce()
@@ -240,7 +243,7 @@ func c09IOClient(prefix []int, pl string) explore.Outcome {
 		c2s.Atomic = 4096
 		cl, _, err := mcp.VerifNewStdioClientOverPipes(memnet.WEnd{P: c2s}, memnet.REnd{P: s2c}, nil, 30*time.Second, mcp.Implementation{Name: "c", Version: "1"}, mcp.WithStdioLogger(hx.Nop{}))
 		if err != nil {
-			viol = append(viol, V("harness", "%v", err))
+			viol = append(viol, V("setup-handshake-fails", "setting the scenario up with well-behaved peers fails: %v", err))
 			return
 		}
 		// scripted server: answers initialize, then — once the tools/call request has been seen to
@@ -329,6 +332,7 @@ func (s *c09Script) run() {
 }
 
 func c09GetStream(prefix []int, pl string) explore.Outcome {
+	defer nonAtomicWriters()() // Write/Flush on a ResponseWriter take time: concurrent use is reported
 	var viol []explore.Violation
 	obs := &hx.Log{}
 	payload := c09Payloads[pl]
@@ -337,7 +341,7 @@ func c09GetStream(prefix []int, pl string) explore.Outcome {
 		r := NewRig("ss")
 		rp := NewRawPeer(r)
 		if err := rp.Handshake(); err != nil {
-			viol = append(viol, V("harness", "%v", err))
+			viol = append(viol, V("setup-handshake-fails", "setting the scenario up with well-behaved peers fails: %v", err))
 			return
 		}
 		if err := rp.OpenStream(); err != nil {
@@ -382,6 +386,7 @@ func c09GetStream(prefix []int, pl string) explore.Outcome {
 }
 
 func c09LSStream(prefix []int, pl string, tick bool) explore.Outcome {
+	defer nonAtomicWriters()() // Write/Flush on a ResponseWriter take time: concurrent use is reported
 	var viol []explore.Violation
 	obs := &hx.Log{}
 	payload := c09Payloads[pl]
@@ -404,7 +409,7 @@ func c09LSStream(prefix []int, pl string, tick bool) explore.Outcome {
 		})
 		rp := NewRawPeer(r)
 		if err := rp.Handshake(); err != nil {
-			viol = append(viol, V("harness", "%v", err))
+			viol = append(viol, V("setup-handshake-fails", "setting the scenario up with well-behaved peers fails: %v", err))
 			return
 		}
 		vsched.Quiesce()
@@ -444,6 +449,7 @@ func c09LSStream(prefix []int, pl string, tick bool) explore.Outcome {
 }
 
 func c09PostSSE(prefix []int, pl string) explore.Outcome {
+	defer nonAtomicWriters()() // Write/Flush on a ResponseWriter take time: concurrent use is reported
 	var viol []explore.Violation
 	obs := &hx.Log{}
 	payload := c09Payloads[pl]
@@ -460,7 +466,7 @@ func c09PostSSE(prefix []int, pl string) explore.Outcome {
 		})
 		rp := NewRawPeer(r)
 		if err := rp.Handshake(); err != nil {
-			viol = append(viol, V("harness", "%v", err))
+			viol = append(viol, V("setup-handshake-fails", "setting the scenario up with well-behaved peers fails: %v", err))
 			return
 		}
 		vsched.SetBranching(true)
